@@ -390,7 +390,25 @@ pub enum Outcome {
     BothError,
     /// `-I 8`: both runs reported the same usage error
     UsageError,
+    /// the output ran into a documented loader limitation (not asserted)
+    DocumentedLimit,
     Discarded,
+}
+
+/// Some line of `y` carries a comment containing `: ` (or ending in `:`) while the text
+/// before the comment has no `key:` of its own.
+fn keyless_line_with_colon_comment(y: &[u8]) -> bool {
+    let t = String::from_utf8_lossy(y);
+    t.lines().any(|line| {
+        let at = match (line.find(" #"), line.find("\t#")) {
+            (Some(a), Some(b)) => a.min(b),
+            (Some(a), None) | (None, Some(a)) => a,
+            _ => return false,
+        };
+        let (pre, comment) = line.split_at(at);
+        let has_colon = |s: &str| s.contains(": ") || s.contains(":\t") || s.trim_end().ends_with(':');
+        has_colon(comment) && !has_colon(pre)
+    })
 }
 
 fn tmp_named(stem: &str, ext: &str, data: &[u8]) -> std::path::PathBuf {
@@ -512,6 +530,12 @@ fn check_once(case: &Case, indent: u8, st: &mut Stats) -> Result<Outcome, Fail> 
         return Err(crash_fail("reread", &r, case));
     }
     if !r.ok() {
+        if err_head(&r).contains("key without value") && keyless_line_with_colon_comment(&y.stdout) {
+            // documented loader limitation (docs/compliance/yaml/limitations.md, "A key run
+            // that ends before its `:`": `b #c: d` -> KeyWithoutValue): a comment containing
+            // `: ` was re-emitted on a line that has no `key:` of its own
+            return Ok(Outcome::DocumentedLimit);
+        }
         return Err(Fail::new(format!("C15/reread-error/{}", err_shape(&err_head(&r))), detail(json!({"reread_exit": r.code, "reread_stderr": err_head(&r)}))));
     }
     let rvals = match jsonval::parse_stream(&r.stdout) {
@@ -802,6 +826,7 @@ fn run_case(u: &mut Src, st: &mut Stats, av: Avoid) -> Result<(), Fail> {
         Outcome::NoResult => st.class("outcome:no-result"),
         Outcome::BothError => st.class("outcome:both-runs-error"),
         Outcome::UsageError => st.class("outcome:usage-error-I8"),
+        Outcome::DocumentedLimit => st.class("outcome:documented-loader-limit(comment-with-colon-on-keyless-line)"),
         Outcome::Discarded => st.discard(),
     }
     Ok(())
